@@ -13,29 +13,55 @@ open Cppcheck.Gen.SeverityGuards
 
 set_option maxRecDepth 200000
 
-/-- guards are positive in the options (any formula of the language, any environment) -/
-theorem monotone (f : Formula) (o o' : Opts) (env : Env) (h : o ≤ o') : eval o env f = true → eval o' env f = true :=
-  eval_mono h env f
+/-- monotonicity holds for the POSITIVE fragment of the guard language (any such formula, any environment) … -/
+theorem monotone_of_positive (f : Formula) (hp : f.positive = true) (o o' : Opts) (env : Env) (h : o ≤ o') :
+    eval o env f = true → eval o' env f = true :=
+  eval_mono h env f hp
 
-/-- … hence enabling further severities or `--inconclusive` never disables a site that may report -/
-theorem table_monotone : ∀ r ∈ rows, ∀ (o o' : Opts) (env : Env), o ≤ o' → mayReport r o env = true → mayReport r o' env = true :=
-  fun r _ _ _ env h => eval_mono h env r.guard
+/-- … and not for the language as a whole: a guard that tests an option for being disabled is not monotone -/
+theorem monotone_needs_positive :
+    ¬ (∀ (f : Formula) (o o' : Opts) (env : Env), o ≤ o' → eval o env f = true → eval o' env f = true) :=
+  eval_not_mono_nopt
+
+example : (Formula.and (en .style) (.or inc (.lit 3 false))).positive = true := by decide
+example : (Formula.and (en .style) (nen .warning)).positive = false := by decide
 
 example : (Opts.ofMask 0b0000000011) ≤ (Opts.ofMask 0b1000000111) := by
   constructor
   · intro s; cases s <;> decide
   · decide
 
-/-- the three decisions over the WHOLE generated table -/
+/-- the four decisions over the WHOLE generated table.  The last one is the obligation "every row of the regenerated table is
+in the positive fragment": the translator emits option tests with their real polarity, so an emission that the source puts
+under `if (isEnabled(x)) return;` (or in the else branch of `if (isEnabled(x))`) makes it false. -/
 theorem table_checks :
     rows.all (fun r => exemptGate.contains r.idx || r.gateOk nFlags) = true ∧
     rows.all (fun r => exemptGateCli.contains r.idx || r.gateOkCli nFlags) = true ∧
-    rows.all (fun r => exemptInc.contains r.idx || r.incOk nFlags) = true := by
-  refine ⟨?_, ?_, ?_⟩ <;> decide +kernel
+    rows.all (fun r => exemptInc.contains r.idx || r.incOk nFlags) = true ∧
+    rows.all (fun r => exemptPos.contains r.idx || r.posOk nFlags) = true := by
+  refine ⟨?_, ?_, ?_, ?_⟩ <;> decide +kernel
+
+/-- every row of the table (outside `exemptPos`, empty on the current tree) has a guard without a live disabled-option test -/
+theorem table_positive : ∀ r ∈ rows, r.idx ∉ exemptPos → r.posOk nFlags = true := by
+  intro r hr hex
+  have h := (List.all_eq_true.mp table_checks.2.2.2) r hr
+  simp only [Bool.or_eq_true] at h
+  cases h with
+  | inl hc => exact absurd (by simpa using hc) hex
+  | inr hok => exact hok
+
+/-- … hence, per site and for a fixed environment (the analysed program and the state other checks leave behind, e.g. `diag()`,
+are part of `env`): enabling further severities or `--inconclusive` never disables a site that may report.  Soundness of `rows`
+(the guard is implied by the execution of the site) is the translator's claim, validated by the correspondence, not proved. -/
+theorem table_monotone : ∀ r ∈ rows, r.idx ∉ exemptPos → ∀ (o o' : Opts) (env : Env), defaultsHold nFlags env → o ≤ o' →
+    mayReport r o env = true → mayReport r o' env = true :=
+  fun r hr hex _ _ _ hD hle hm => posOk_sound (table_positive r hr hex) hD hle hm
 
 /-- a finding of a gated severity is reported only when that severity is enabled (all option sets, all environments in which
-the Settings flags named in `litNames` have their default value) -/
-theorem gated : ∀ r ∈ rows, r.idx ∉ exemptGate → ∀ (o : Opts) (env : Env), defaultsHold nFlags env →
+the Settings flags named in `litNames` have their default value).  PARTIAL: rows of `exemptGate` (corpus/C27/exempt.json) are
+excluded — the unrestricted statement is `gated_counterexample`; `rows` covers the check classes of lib/check*.cpp, and its
+soundness w.r.t. the C++ is the translator's claim. -/
+theorem gated_partial : ∀ r ∈ rows, r.idx ∉ exemptGate → ∀ (o : Opts) (env : Env), defaultsHold nFlags env →
     mayReport r o env = true → gatedSev (r.sev.eval env) = true → o.sev (r.sev.eval env) = true := by
   intro r hr hex o env hD hm hg
   have h := (List.all_eq_true.mp table_checks.1) r hr
@@ -46,7 +72,7 @@ theorem gated : ∀ r ∈ rows, r.idx ∉ exemptGate → ∀ (o : Opts) (env : E
 
 /-- the same for option sets as the command line produces them from `--enable=` (style brings warning, performance and
 portability with it): fewer rows are excluded -/
-theorem gated_cli : ∀ r ∈ rows, r.idx ∉ exemptGateCli → ∀ (o : Opts) (env : Env), o.cliClosed → defaultsHold nFlags env →
+theorem gated_cli_partial : ∀ r ∈ rows, r.idx ∉ exemptGateCli → ∀ (o : Opts) (env : Env), o.cliClosed → defaultsHold nFlags env →
     mayReport r o env = true → gatedSev (r.sev.eval env) = true → o.sev (r.sev.eval env) = true := by
   intro r hr hex o env hcli hD hm hg
   have h := (List.all_eq_true.mp table_checks.2.1) r hr
@@ -59,10 +85,10 @@ example : (Opts.ofMask 0b0000011111).cliClosed := fun _ => ⟨by decide, by deci
 example : defaultsHold nFlags env0 := defaultsHold_env0 nFlags
 
 /-- an inconclusive finding is reported only with `--inconclusive` -/
-theorem inconclusive_gated : ∀ r ∈ rows, r.idx ∉ exemptInc → r.cert = .inconclusive → ∀ (o : Opts) (env : Env),
+theorem inconclusive_gated_partial : ∀ r ∈ rows, r.idx ∉ exemptInc → r.cert = .inconclusive → ∀ (o : Opts) (env : Env),
     defaultsHold nFlags env → mayReport r o env = true → o.inconclusive = true := by
   intro r hr hex hc o env hD hm
-  have h := (List.all_eq_true.mp table_checks.2.2) r hr
+  have h := (List.all_eq_true.mp table_checks.2.2.1) r hr
   simp only [Bool.or_eq_true] at h
   cases h with
   | inl hcn => exact absurd (by simpa using hcn) hex
